@@ -11,8 +11,9 @@ open BHS.Props.C16
 #print axioms C16_no_5xx_iff
 #print axioms C16_single_json_iff
 #print axioms C16_client_errors_structured_iff
-#print axioms C16_no_5xx_partial
+#print axioms C16_no_5xx
 #print axioms C16_single_json_partial
+#print axioms C16_single_json_excluded_fail
 #print axioms C16_client_errors_structured_partial
 #print axioms C16_no_5xx_fixed
 #print axioms C16_single_json_fixed
@@ -20,14 +21,7 @@ open BHS.Props.C16
 #print axioms C16_store_untouched
 #print axioms C16_reads_pure
 #print axioms C16_rejected_write_partial
-#print axioms C16_no_5xx_counterexample_byHeight
-#print axioms C16_no_5xx_counterexample_byHeight_text
-#print axioms C16_no_5xx_counterexample_commonAncestor_empty
-#print axioms C16_no_5xx_counterexample_commonAncestor_genesis
-#print axioms C16_single_json_counterexample_webhook
-#print axioms C16_rejected_write_counterexample_webhook
-#print axioms C16_client_errors_structured_counterexample_verify
-#print axioms C16_client_errors_structured_counterexample_access
+#print axioms C16_rejected_write
 #print axioms C16_single_json_counterexample_status
 #print axioms C16_client_errors_structured_counterexample_noRoute
 #print axioms C16_single_json_counterexample_redirect
